@@ -105,6 +105,8 @@ type peer struct {
 	defaultBodyCodec  byte
 	printDetail       bool
 	countTime         bool
+	// sessions whose local Close() is under way (they have already left the session hub)
+	closingSessions graceWaitGroup
 
 	// only for server role
 	listenAddr net.Addr
@@ -438,6 +440,9 @@ func (p *peer) Close() (err error) {
 		err = errors.Merge(err, <-errCh)
 	}
 	close(errCh)
+	// a session whose own Close() was already under way is no longer in the hub:
+	// wait for it as well, it may still be waiting for running handlers
+	p.closingSessions.Wait()
 	for lis := range p.listeners {
 		if qlis, ok := lis.(*quic.Listener); ok {
 			err = errors.Merge(err, qlis.Close())
